@@ -22,7 +22,7 @@ pub static DEF: CheckDef = CheckDef {
     id: "C01",
     level: "exploration",
     technique: "deterministic multi-node network simulation: real nodes over an in-memory transport with seeded latencies and faults (silence, slow, drop, refused/black-holed dials, lying stub peers); per-lookup oracle over the recorded RPC trace (bounds, distinctness, order, provenance, no self/duplicate queries, closure over everything the lookup learned, exactness in responsive full meshes)",
-    runs: (500, 20000),
+    runs: (1500, 60000),
     generate,
     execute,
     shrink,
